@@ -46,3 +46,17 @@ proof fn lemma_boundary_order(cs: Seq<char>, a: int, b: int)
     if ia < ib { lemma_char_off_monotonic(cs, ia, ib); }
     if ib < ia { lemma_char_off_monotonic(cs, ib, ia); }
 }
+
+/// byte offsets inside `pre + mid.subrange(a, b) + post` of the characters taken from `mid`
+proof fn lemma_char_off_in_framed_subrange(pre: Seq<char>, mid: Seq<char>, a: int, b: int, post: Seq<char>, j: int)
+    requires 0 <= a <= j <= b <= mid.len(),
+    ensures
+        char_off(pre + mid.subrange(a, b) + post, pre.len() + (j - a)) == encode_utf8(pre).len() + char_off(mid, j) - char_off(mid, a),
+        j < b ==> (pre + mid.subrange(a, b) + post)[pre.len() + (j - a)] == mid[j],
+{
+    let whole = pre + mid.subrange(a, b) + post;
+    assert(whole.take(pre.len() + (j - a)) =~= pre + mid.subrange(a, j));
+    encode_utf8_concat(pre, mid.subrange(a, j));
+    assert(mid.take(j) =~= mid.take(a) + mid.subrange(a, j));
+    encode_utf8_concat(mid.take(a), mid.subrange(a, j));
+}
